@@ -204,6 +204,10 @@ static void add_attr(const char *attr_name, enum xcm_attr_type type,
     if (is_sensitive(attr_name))
 	return;
 
+    /* a value which does not fit the protocol's value field is left out */
+    if (len > CTL_ATTR_VALUE_MAX)
+	return;
+
     struct ctl_proto_get_all_attr_cfm *cfm = data;
 
     /* the attributes beyond the capacity of the reply are left out */
@@ -217,7 +221,6 @@ static void add_attr(const char *attr_name, enum xcm_attr_type type,
     strcpy(attr->name, attr_name);
     attr->value_type = type;
 
-    ut_assert(attr->value_len < sizeof(attr->any_value));
     memcpy(attr->any_value, value, len);
     attr->value_len = len;
 }
